@@ -223,14 +223,20 @@ Definition notify_list : list string :=
   List.app (map (tag "1:") (types_where notifies tmpl4)) (map (tag "58:") (types_where notifies tmpl6)).
 Definition request_list : list string :=
   map dec_of_N (List.app (types_where is_request tmpl4) (types_where is_request tmpl6)).
-Definition consts_obs : string :=
-  "notify=" ++ join "," notify_list
-  ++ ";request=" ++ join "," request_list
-  ++ ";id0=" ++ dec_of_N (next init_go)
-  ++ ";idtype=" ++ (if (u16 65536 =? 0) && (u16 65535 =? 65535) then "uint16" else "?")
-  ++ ";fullgt=" ++ dec_of_N (TABLE_CAP - 1)
-  ++ ";tmo=" ++ tmax_s ++ "/" ++ dec_of_Z (eff_timeout 0 / SECOND)%Z
-  ++ ";minlen=" ++ min_echo_len.
+(* one component by name; the harness names only the components it could RESOLVE in the source *)
+Definition const_component (n : string) : option string :=
+  if String.eqb n "notify" then Some (join "," notify_list)
+  else if String.eqb n "request" then Some (join "," request_list)
+  else if String.eqb n "id0" then Some (dec_of_N (next init_go))
+  else if String.eqb n "idtype" then Some (if (u16 65536 =? 0) && (u16 65535 =? 65535) then "uint16" else "?")
+  else if String.eqb n "fullgt" then Some (dec_of_N (TABLE_CAP - 1))
+  else if String.eqb n "tmo" then Some (tmax_s ++ "/" ++ dec_of_Z (eff_timeout 0 / SECOND)%Z)
+  else if String.eqb n "minlen" then Some min_echo_len
+  else None.
+Definition consts_obs (names : string) : string :=
+  if String.eqb names "-" then ""
+  else join ";" (map (fun n => match const_component n with Some v => n ++ "=" ++ v | None => n ++ "=??" end)
+                     (split ","%char names)).
 
 Definition dispatch (kind : string) (args : list string) : string :=
   if String.eqb kind "vdr" then
@@ -243,7 +249,8 @@ Definition dispatch (kind : string) (args : list string) : string :=
               ++ "/" ++ dec_of_nat n) "-" "-"
     | _ => BADARGS
     end
-  else if String.eqb kind "consts" then out3 consts_obs "-" "-"
+  else if String.eqb kind "consts" then
+    match args with [names] => out3 (consts_obs names) "-" "-" | _ => BADARGS end
   else if String.eqb kind "scn" then
     match args with
     | n :: ws =>
